@@ -45,6 +45,36 @@ def apply_hint(ex, info, name, st):
         raise
 
 
+def frame_obligations(ex, ctx, info, olds, s2, where):
+    """frame (`modifies`, default: nothing): every field of `self` that the contract does not list is, on this exit path, equal to its
+    value at entry.  Call sites rely on this (they keep the caller's knowledge of all unlisted fields), so it is an obligation here."""
+    new, old = s2.env.get("self"), olds.get("old_self")
+    if not isinstance(new, VObj) or not isinstance(old, VObj):
+        return
+    if info.qualname.endswith(".__init__"):
+        return  # a constructor's object is fresh: no caller holds knowledge about its fields
+    mod = set(info.modifies or ())
+    for f in sorted(set(old.fields) | set(new.fields)):
+        if f in mod:
+            continue
+        ov, nv = old.fields.get(f), new.fields.get(f)
+        if ov is None or nv is None:
+            ctx.oblige(s2, z3.BoolVal(False), f"frame[self.{f} created or deleted]", where)
+            continue
+        if nv is ov:
+            continue
+        try:
+            e = z3.simplify(ex.eq(ov, nv))
+        except OutOfReach:
+            tn, to = getattr(nv, "term", None), getattr(ov, "term", None)
+            if tn is not None and to is not None and tn.eq(to):
+                continue
+            raise OutOfReach(f"frame: field {f} cannot be compared with its entry value")
+        if z3.is_true(e):
+            continue
+        ctx.oblige(s2, e, f"frame[self.{f} unchanged]", where)
+
+
 def check_hint_shape(cl):
     """soundness: a hint is `return L(..) and L(..) ...` with every conjunct a registered lemma call"""
     if len(cl.body) != 1 or not isinstance(cl.body[0], ast.Return):
@@ -294,6 +324,8 @@ def verify_function(info: ContractInfo) -> FunctionResult:
             # clauses see parameters at entry, `self` after the call, result
             if "self" in s2.env:
                 cs.env["self"] = s2.env["self"]
+            if kind in ("return", "fall", "raise"):
+                frame_obligations(ex, ctx, info, olds, s2, where)
             if kind in ("return", "fall"):
                 n_ret += 1
                 result = payload if (kind == "return" and payload is not None) else NONE
